@@ -490,6 +490,11 @@ def model_task(task, ybin, root, prop):
             protos0[0].steps.append(("steerarru64", M.Arr(M.Prim(pr_.choice(["uint64", "uint64", "size"])), pr_.choice([None, 1, 2])), pr_.chance(0.3)))
             protos0[0].steps.append(("steerarri64", M.Arr(M.Prim("int64"), pr_.choice([None, 1, ((None, 4),), ((None, 2), (None, 3))])), pr_.chance(0.3)))
             add_zoo(protos0[0], pr_, want_cpp, pkg)
+            if not want_cpp and pr_.fork("wideunion").chance(0.2):
+                # a union with more cases than a single byte with a continuation bit can number (Python models only: a
+                # std::variant of that width takes minutes to compile)
+                pkg.files[fn0].append(M.Alias("SteerWideUnion", (), M.Union(tuple(("c%d" % k_, M.Vec(M.Prim("uint8"), k_ + 1)) for k_ in range(pr_.fork("wideunion2").randint(129, 140))), explicit=True)))
+                protos0[0].steps.append(("steerwideunion", M.Named("SteerWideUnion"), True))
             if pr_.fork("bigschema").chance(0.35):
                 # a schema text of twenty-odd kilobytes: an enumeration with several hundred symbols, used by the first protocol
                 pkg.files[fn0].append(M.Enum("AaaBigCodes", "uint16", [("code%03d" % k_, k_) for k_ in range(pr_.fork("bigschema2").randint(620, 900))]))
